@@ -14,7 +14,7 @@ RULE = ("grammar-guided mutants of random programs (token deleted / duplicated /
         "each text is processed twice with other (failing and succeeding) texts in between and must give the same outcome; "
         "non-trivial = the text is rejected")
 BOUND = "programs n <= 3, depth <= 2; <= 60 mutants per program"
-BUDGET_S = {"quick": 45, "thorough": 900}
+BUDGET_S = {"quick": 45, "thorough": 400}
 CASE_TIMEOUT_S = 5
 
 JUNK = ["]", "[", "{", "}", "<", ">", "|", ":", ";", "let", "map", "loop", "register", "macro", "subcircuit", "from", "usepulses", "*", "-1", "0",
